@@ -1048,8 +1048,8 @@ func (bits permission) String() string {
 	return string(perms)
 }
 
-func getFiletype(filetype string) (filetype, error) {
-	switch strings.ToLower(filetype) {
+func getFiletype(name string) (filetype, error) {
+	switch strings.ToLower(name) {
 	case "file":
 		return fileFiletype, nil
 	case "dir":
@@ -1065,7 +1065,16 @@ func getFiletype(filetype string) (filetype, error) {
 	case "fifo":
 		return fifoFiletype, nil
 	default:
-		return 0, fmt.Errorf("invalid filetype '%v'", filetype)
+		// ToCommandLine (like auditctl -l) prints the numeric value unless
+		// IDs are resolved, so accept the numbers of the known types too.
+		if num, err := parseNum(name); err == nil {
+			switch ft := filetype(num); ft {
+			case fileFiletype, dirFiletype, socketFiletype, linkFiletype,
+				characterFiletype, blockFiletype, fifoFiletype:
+				return ft, nil
+			}
+		}
+		return 0, fmt.Errorf("invalid filetype '%v'", name)
 	}
 }
 
